@@ -335,5 +335,8 @@ def mj_full_m(mjm, mjd):
   import mujoco
 
   out = np.zeros((mjm.nv, mjm.nv))
-  mujoco.mj_fullM(mjm, out, mjd.qM)
+  if hasattr(mjd, "qM"):
+    mujoco.mj_fullM(mjm, out, mjd.qM)
+  else:  # MuJoCo >= 3.13: inertia stored in CSR form as mjd.M
+    mujoco.mju_sym2dense(out, np.asarray(mjd.M, dtype=np.float64), mjm.M_rownnz, mjm.M_rowadr, mjm.M_colind)
   return out
